@@ -227,7 +227,7 @@ type stream interface {
 	distinct() stream
 	appendItems(w *watcher, items []int) stream
 	concat(w *watcher, slices [][]int) stream
-	extend(streams []stream) stream // nil entry = nil pointer argument
+	extend(w *watcher, streams []stream) stream // nil entry = nil pointer argument
 	remove(i int) stream
 	removeItem(w *watcher, items []int) stream
 	reverse() stream
@@ -335,12 +335,32 @@ func (g gStream) concat(w *watcher, slices [][]int) stream {
 	}
 	return gs(g.p.Concat(args...))
 }
-func (g gStream) extend(streams []stream) stream {
-	args := make([]*fpgo.StreamDef[int], len(streams))
+func (g gStream) extend(w *watcher, streams []stream) stream {
+	args := make([]*fpgo.StreamDef[int], len(streams), len(streams)+1)
 	for i, s := range streams {
 		args[i] = gptr(s)
 	}
+	// the list of streams is the caller's (spread call): it still holds what it held afterwards
+	snap := append([]*fpgo.StreamDef[int]{}, args...)
+	w.checks = append(w.checks, func() string {
+		for i := range snap {
+			if args[i] != snap[i] {
+				return fmt.Sprintf("the caller's list of streams handed to Extend(list...) changed at position %d (nil entries: %v)", i, nilPositions(len(snap), func(k int) bool { return snap[k] == nil }))
+			}
+		}
+		return ""
+	})
 	return gs(g.p.Extend(args...))
+}
+
+func nilPositions(n int, isNil func(int) bool) []int {
+	var r []int
+	for i := 0; i < n; i++ {
+		if isNil(i) {
+			r = append(r, i)
+		}
+	}
+	return r
 }
 func (g gStream) remove(i int) stream { return gs(g.p.Remove(i)) }
 func (g gStream) removeItem(w *watcher, items []int) stream {
@@ -589,11 +609,20 @@ func (g iStream) concat(w *watcher, slices [][]int) stream {
 	}
 	return is(g.p.Concat(args...))
 }
-func (g iStream) extend(streams []stream) stream {
-	args := make([]*fpgo.StreamForInterfaceDef, len(streams))
+func (g iStream) extend(w *watcher, streams []stream) stream {
+	args := make([]*fpgo.StreamForInterfaceDef, len(streams), len(streams)+1)
 	for i, s := range streams {
 		args[i] = iptr(s)
 	}
+	snap := append([]*fpgo.StreamForInterfaceDef{}, args...)
+	w.checks = append(w.checks, func() string {
+		for i := range snap {
+			if args[i] != snap[i] {
+				return fmt.Sprintf("the caller's list of streams handed to Extend(list...) changed at position %d (nil entries: %v)", i, nilPositions(len(snap), func(k int) bool { return snap[k] == nil }))
+			}
+		}
+		return ""
+	})
 	return is(g.p.Extend(args...))
 }
 func (g iStream) remove(i int) stream { return is(g.p.Remove(i)) }
